@@ -103,6 +103,43 @@ def tree_resize_job(rng, jid):
     return job
 
 
+def overdue_job(rng, jid):
+    """An overdue resize: a reserve()-started resize is stopped in its finishing sweep; inserts pile up meanwhile (they
+    can neither join nor start another resize); the resize is published with the count already above the new
+    threshold; then one more operation runs - a removal, a compute on the second node of a bin, a lookup, an insert.
+    Only an insert-like operation may start the next resize, and nobody may deadlock on its own bin lock."""
+    u = gen.Uids()
+    # 16 bins (cap 10), identity hash; keys 1..11 present; 1 and 65 (and 2, 66) share a bin in tables of 16..64 bins
+    pre = [gen.ins(k, u) for k in range(1, 10)]
+    extra = [65, 66] + list(range(100, 100 + rng.randint(15, 24)))
+    t0 = [{"op": "reserve", "n": 1}]           # 9 + 1 entries -> requested capacity 16 > threshold 12: 16 -> 32 bins (threshold 24), once
+    half = len(extra) // 2
+    t1 = [gen.ins(k, u) for k in extra[:half]]
+    t2 = [gen.ins(k, u) for k in extra[half:]]
+    victim = rng.choice([65, 66, 1, 2, 5, 100])
+    last = rng.choice([{"op": "remove", "k": victim}, {"op": "remove_entry", "k": victim}, {"op": "compute", "k": victim, "f": "none", "n": u.next()},
+                       {"op": "compute", "k": victim, "f": "inc", "n": u.next()}, {"op": "retain", "f": "drop", "keys": [victim], "n": 0},
+                       {"op": "retain_force", "f": "drop", "keys": [victim], "n": 0}, {"op": "get", "k": victim}, gen.ins(200, u),
+                       {"op": "clear"}])
+    t3 = [last, {"op": "get", "k": 3}]
+    kind = rng.choice(["map", "map", "set"])
+    job = {"id": jid, "cfg": "overdue", "kind": kind, "pin": rng.random() < 0.3, "scope": rng.choice(["op", "thread"]),
+           "hasher": gen.table_hasher({}), "cap": 10, "batch": rng.choice([0, 1]), "prefix": pre, "threads": [t0, t1, t2, t3],
+           "sched": gen.schedule(rng, 4, 1500), "finals": list(range(1, 10)) + extra + [200], "rec": ["site"], "budget": 600000,
+           # the resizer is stopped after its j-th bin store (inside the finishing sweep), the inserters run to completion,
+           # the resizer publishes, then the last thread runs
+           "script": [{"run": 0, "until": {"kind": "store", "ty": "bin", "nth": rng.randint(2, 12)}}, {"finish": 1}, {"finish": 2},
+                      {"finish": 0}, {"finish": 3}]}
+    if kind == "set":
+        for t in job["threads"]:
+            for o in t:
+                if o["op"] in ("compute", "remove_entry", "retain_force"):
+                    o["op"] = {"compute": "remove", "remove_entry": "take", "retain_force": "retain"}[o["op"]]
+                if o["op"] == "get":
+                    o["op"] = "contains"
+    return job
+
+
 def stamp_check(verdict):
     """The model encodes size_ctl during a resize of n bins as RS(n) + k with RS injective in n and
     negative, k < MAXRES never carrying into the stamp. Here those facts are checked on the values of
@@ -144,6 +181,8 @@ def run(pid, tier, seed, njobs=None):
     for i in range(n):
         if i % 8 == 5:
             jobs.append(tree_resize_job(rng, "c10-%05d" % i))
+        elif i % 8 == 1:
+            jobs.append(overdue_job(rng, "c10-%05d" % i))
         elif i % 4 == 3:
             j = gen.conc_job(rng, "c10-%05d" % i, cfgname=names[i % len(names)], rec=("site",), whole=0.2, maxops=4)
             if j["sched"].get("kind") == "os":
